@@ -22,6 +22,7 @@ happens without it).
 -/
 import CtyModel.Lemmas.ConvertUnknown
 import CtyModel.Lemmas.ConvertTotal
+import CtyModel.Lemmas.ConvertSafe
 namespace CtyModel
 namespace C08
 open Convert Ty
@@ -285,6 +286,26 @@ theorem safe_total_partial (E : Env) (hU : UnifyLaws E) (hS : SetLaws E) (fuel :
 /-- with enough fuel the sample conversion of the non-vacuity section does return a value -/
 example : (apply Env.simple 8 (.wrap (.list .string) (.collToList .string (.wrap .string .boolToStr)))
     ⟨.list .bool, .seq [.b true, .null]⟩).isOk = true := by decide
+
+/-! ## Everything offered as safe is offered as unsafe -/
+
+/-- A conversion offered by `GetConversion` to a placeholder-free target is also
+offered by `GetConversionUnsafe`, and the two give the same outcome on every value
+of the source type (known, unknown, null or marked, any depth), for every fuel. -/
+theorem safe_sub_unsafe_partial (E : Env) (hU : UnifyLaws E) (v : Value) (want : Ty) (p : Plan)
+    (hp : RegularPair v want) (hg : getConversion E v.ty want = some p) :
+    ∃ p', getConversionUnsafe E v.ty want = some p' ∧ ∀ fuel, apply E fuel p' v = apply E fuel p v := by
+  obtain ⟨c, hc, rfl⟩ := Option.map_eq_some_iff.mp hg
+  refine ⟨.wrap want (up c), ?_, fun fuel => recEq_apply hU fuel v.ty want c v hc hp.conds⟩
+  simp [getConversionUnsafe, getConv, gck_up E v.ty want c hp.noDyn hc]
+
+/-- the offer itself needs nothing of the value: for any types with a placeholder-free
+target, a safe conversion implies an unsafe one -/
+theorem safe_sub_unsafe_offer (E : Env) (inT want : Ty) (hd : want.hasDyn = false)
+    (h : (getConversion E inT want).isSome = true) : (getConversionUnsafe E inT want).isSome = true := by
+  obtain ⟨p, hp⟩ := Option.isSome_iff_exists.mp h
+  obtain ⟨c, hc, rfl⟩ := Option.map_eq_some_iff.mp hp
+  simp [getConversionUnsafe, getConv, gck_up E inT want c hd hc]
 
 /-! ## Round trips through the inverse conversion -/
 
